@@ -2,6 +2,7 @@ package main
 
 import (
 	"fmt"
+	"path"
 	"strings"
 	"syscall"
 
@@ -12,13 +13,24 @@ import (
 // (through the real PrefixFS): random operation sequences, compared after every operation:
 // result class, returned data, and the full canonical tree.
 
-func init() { streams["osmodel"] = streamOS }
+func init() {
+	streams["osmodel"] = streamOS
+	replayKinds["oscase"] = func(cfg *Config, c map[string]any, b *Batch, res *Result) error {
+		var oc OSCase
+		if err := remarshal(c, &oc); err != nil {
+			return err
+		}
+		syscall.Umask(oc.Umask)
+		return runOSCase(oc, b, res)
+	}
+}
 
 type OSCase struct {
-	Kind  string  `json:"kind"` // "oscase"
-	Umask int     `json:"umask"`
-	Tree  []Entry `json:"tree"`
-	Ops   []Op    `json:"ops"`
+	Kind   string   `json:"kind"` // "oscase"
+	Umask  int      `json:"umask"`
+	Tree   []Entry  `json:"tree"`
+	Ops    []Op     `json:"ops"`
+	Hidden []string `json:"hidden,omitempty"` // non-nil: the operations go through HiddenFS(Hidden...)
 }
 
 func existingPaths(dump []string) []string {
@@ -39,11 +51,28 @@ func runOSCase(c OSCase, b *Batch, res *Result) error {
 		return fmt.Errorf("build: %w", err)
 	}
 	rc.MarkStart()
-	real, err := backupfs.NewPrefixFS(backupfs.NewOSFS(), rc.Root)
+	pfs, err := backupfs.NewPrefixFS(backupfs.NewOSFS(), rc.Root)
 	if err != nil {
 		return err
 	}
+	var real backupfs.FS = pfs
 	stack := "prefix=" + modelRoot
+	hasLinks := false
+	for _, e := range c.Tree {
+		if e.Kind == "link" {
+			hasLinks = true
+		}
+	}
+	var hiddenSnap []string
+	if c.Hidden != nil {
+		h, err := backupfs.NewHiddenFS(pfs, c.Hidden...)
+		if err != nil {
+			return err
+		}
+		real = h
+		stack = "hidden=" + strings.Join(c.Hidden, ",") + "|" + stack
+		hiddenSnap = hiddenPart(rc.Dump(""), c.Hidden)
+	}
 	tag := fmt.Sprintf("oscase#%d", res.Evaluations)
 	b.Add(tag, line("os.begin", itoa(c.Umask)), "ok")
 	for _, d := range []string{"/w", "/w/w", "/w/w/w"} {
@@ -61,6 +90,12 @@ func runOSCase(c OSCase, b *Batch, res *Result) error {
 		res.count("op." + op.K + "." + out[0])
 		if out[0] != "ok" && len(out) > 1 {
 			res.count("err." + out[1])
+		}
+		if c.Hidden != nil {
+			if op.K == "symlink" || op.K == "rename" {
+				hasLinks = hasLinks || op.K == "symlink"
+			}
+			hiddenOracles(&c, op, out, rc.Dump(""), hiddenSnap, hasLinks, res)
 		}
 	}
 	return nil
@@ -81,6 +116,18 @@ func streamOS(cfg *Config, res *Result) error {
 	b := &Batch{}
 	g := &OpGen{Mutating: allMutators, ReadOnly: true, Unclean: true}
 	distinct := map[string]struct{}{}
+	for _, raw := range corpusCases("oscase") {
+		var oc OSCase
+		if remarshal(raw, &oc) == nil && (oc.Hidden == nil || cfg.Prop == "C06" || cfg.Prop == "C11" || cfg.Prop == "C15") {
+			syscall.Umask(oc.Umask)
+			err := runOSCase(oc, b, res)
+			syscall.Umask(umask)
+			if err != nil {
+				return err
+			}
+			res.count("corpus.cases")
+		}
+	}
 	for i := 0; i < n; i++ {
 		c := OSCase{Kind: "oscase", Umask: umask, Tree: genTree(r, GenOpts{})}
 		// ops are generated against a shadow list of paths (initial entries + names used so far)
@@ -95,6 +142,37 @@ func streamOS(cfg *Config, res *Result) error {
 				paths = append(paths, op.A[1])
 			} else if op.K != "remove" && op.K != "removeall" {
 				paths = append(paths, op.A[0])
+			}
+		}
+		if cfg.Prop == "C11" || cfg.Prop == "C15" || cfg.Prop == "C06" {
+			c.Hidden = genHiddenFor(r, c.Tree)
+			// operations that matter here: recursive removal, renames, listings
+			for k := range c.Ops {
+				if r.Chance(1, 3) {
+					target := pickPath(r, paths)
+					if len(c.Hidden) > 0 && r.Chance(1, 2) {
+						hp := path.Clean("/" + r.Pick(c.Hidden))
+						ch := chainOf(hp)
+						target = ch[r.Intn(len(ch))]
+						if r.Chance(1, 4) {
+							// a shallower name that merely shares a string prefix with the hidden path
+							rs := []rune(hp)
+							cut := 1 + r.Intn(len(rs)-1)
+							target = strings.TrimSuffix(string(rs[:cut]), "/")
+							if target == "" {
+								target = "/"
+							}
+						}
+					}
+					switch r.Intn(3) {
+					case 0:
+						c.Ops[k] = Op{"removeall", []string{target}}
+					case 1:
+						c.Ops[k] = Op{"rename", []string{target, pickPath(r, paths) + "-moved"}}
+					default:
+						c.Ops[k] = Op{"read", []string{target}}
+					}
+				}
 			}
 		}
 		if err := runOSCase(c, b, res); err != nil {
@@ -124,4 +202,100 @@ func streamOS(cfg *Config, res *Result) error {
 	res.DistinctNontrivial = len(distinct)
 	res.Distribution["driver.lines"] = b.Len()
 	return nil
+}
+
+// hiddenPart: the entries of a dump at or below a hidden path.
+func hiddenPart(dump []string, hidden []string) []string {
+	var out []string
+	for i := 0; i+6 < len(dump); i += 7 {
+		for _, hp := range hidden {
+			if withinGo(path.Clean("/"+hp), dump[i]) {
+				out = append(out, dump[i:i+7]...)
+				break
+			}
+		}
+	}
+	return out
+}
+
+// hiddenOracles: C06 (nothing at or below a hidden path changes, by any route), C11 (RemoveAll of an
+// ancestor spares exactly the hidden entries and the directories leading to them), C15 (RemoveAll of
+// a name without hidden descendants removes it entirely).
+func hiddenOracles(c *OSCase, op Op, out []string, dump []string, snap []string, hasLinks bool, res *Result) {
+	viol := func(p, what string) {
+		v := Violation{Property: p, What: what, Case: c}
+		if hasLinks {
+			// symlink routes into a hidden path defeat the lexical check (known finding)
+			v.Known = "K-hidden-symlink-route"
+		}
+		res.violate(v)
+	}
+	now := hiddenPart(dump, c.Hidden)
+	// directory mtimes of hidden directories may not change either, but a rename of a sibling inside the
+	// parent does not touch them; compare everything
+	if !dumpEqual(blankDirTimes(snap), blankDirTimes(now)) {
+		viol("C06", fmt.Sprintf("after %v the content at or below a hidden path changed: %s", op, dumpDiff(snap, now)))
+	}
+	if op.K == "removeall" && out[0] == "ok" && strings.HasPrefix(op.A[0], "/") {
+		a := path.Clean(op.A[0])
+		aHidden := false
+		for _, hp := range c.Hidden {
+			if withinGo(path.Clean("/"+hp), a) {
+				aHidden = true
+			}
+		}
+		if aHidden {
+			return
+		}
+		for i := 0; i+6 < len(dump); i += 7 {
+			p := dump[i]
+			if !withinGo(a, p) {
+				continue
+			}
+			ok := false
+			for _, hp := range c.Hidden {
+				chp := path.Clean("/" + hp)
+				if withinGo(chp, p) || (dump[i+1] == "dir" && withinGo(p, chp)) {
+					ok = true
+				}
+			}
+			if !ok {
+				prop := "C11"
+				anc := false
+				for _, hp := range c.Hidden {
+					if withinGo(a, path.Clean("/"+hp)) {
+						anc = true
+					}
+				}
+				if !anc {
+					prop = "C15"
+				}
+				viol(prop, fmt.Sprintf("RemoveAll(%q) succeeded but left %s (%s) behind; hidden = %q", op.A[0], p, dump[i+1], c.Hidden))
+			}
+		}
+		res.count("hidden.removeall.checked")
+	}
+}
+
+// genHiddenFor picks hidden paths around the tree: existing entries, missing children, nested ones.
+func genHiddenFor(r *RNG, tree []Entry) []string {
+	var hs []string
+	n := 1 + r.Intn(3)
+	for i := 0; i < n; i++ {
+		base := "/" + r.Pick(namePool)
+		if len(tree) > 0 && r.Chance(3, 4) {
+			base = tree[r.Intn(len(tree))].Path
+		}
+		switch r.Intn(4) {
+		case 0:
+			hs = append(hs, base)
+		case 1:
+			hs = append(hs, base+"/"+r.Pick(namePool))
+		case 2:
+			hs = append(hs, base+"/"+r.Pick(namePool)+"/"+r.Pick(namePool))
+		default:
+			hs = append(hs, base+"/")
+		}
+	}
+	return hs
 }
